@@ -1035,7 +1035,11 @@ func (u *Unit) execAssign(st *State, s *ast.AssignStmt) []*State {
 		// v, ok := x.(T): never panics; ok reports whether the dynamic type is T
 		if ta, ok := ast.Unparen(s.Rhs[0]).(*ast.TypeAssertExpr); ok && ta.Type != nil {
 			x := u.eval(st, ta.X)
-			want := u.conc(u.staticType(ta))
+			wt := u.staticType(ta)
+			if tup, ok := wt.(*types.Tuple); ok && tup.Len() == 2 {
+				wt = tup.At(0).Type()
+			}
+			want := u.conc(wt)
 			if x.K == KIface && x.Inner != nil {
 				if types.Identical(x.Inner.T, want) {
 					u.assign(st, s.Lhs[0], *x.Inner, s.Tok == token.DEFINE)
